@@ -453,6 +453,16 @@ class _Inliner:
             todo.extend(b.split(".")[-1] for b in self.bases.get(c, []))
         return out
 
+    def descendants(self, clsname):
+        out, todo = [], [clsname]
+        while todo:
+            c = todo.pop()
+            for k, bs in self.bases.items():
+                if c in [b.split(".")[-1] for b in bs] and k not in out and k != clsname:
+                    out.append(k)
+                    todo.append(k)
+        return out
+
     def match(self, call, selfname, clsname):
         f = call.func
         # a method called on a local that holds a fresh instance of the class (`chain = cls(...)` in a classmethod)
@@ -464,10 +474,16 @@ class _Inliner:
                     return self.helpers[("m", k, f.attr)]
         self.receiver = None
         if isinstance(f, ast.Attribute) and isinstance(f.value, ast.Name) and f.value.id == selfname and clsname is not None:
-            # a helper inherited from a base class (possibly defined in another file)
-            for k in self.mro(clsname)[1:]:
-                if ("m", k, f.attr) in self.helpers:
-                    return self.helpers[("m", k, f.attr)]
+            # Python's own dispatch order: the class itself first, then its bases (possibly defined in another file).  A helper that
+            # a subclass of this class overrides is not inlined at all: which body runs depends on the object, not on this text.
+            names = [f.attr] + ([f"_{clsname}{f.attr}"] if f.attr.startswith("__") and not f.attr.endswith("__") else [])
+            for sub in self.descendants(clsname):
+                if any(("m", sub, nm) in self.helpers for nm in names[:1]):
+                    return None
+            for k in self.mro(clsname):
+                for nm in names:
+                    if ("m", k, nm) in self.helpers:
+                        return self.helpers[("m", k, nm)]
         if isinstance(f, ast.Attribute) and isinstance(f.value, ast.Name) and f.value.id in (selfname, clsname):
             for cand in (f.attr, f"_{clsname}{f.attr}" if f.attr.startswith("__") else None):
                 if cand and ("m", clsname, cand) in self.helpers:
@@ -958,10 +974,6 @@ def numpy_spellings(tree):
                 # square(x) is x * x element-wise, the value of x ** 2 (the repository writes the power)
                 count[0] += 1
                 return ast.copy_location(ast.BinOp(left=n.args[0], op=ast.Pow(), right=ast.Constant(value=2)), n)
-            if nm == "reciprocal" and len(n.args) == 1 and not n.keywords:
-                # reciprocal(x) is 1 / x for the float arrays of this package
-                count[0] += 1
-                return ast.copy_location(ast.BinOp(left=ast.Constant(value=1.0), op=ast.Div(), right=n.args[0]), n)
             if nm == "full" and len(n.args) == 2 and not n.keywords:
                 # full(n, v) holds v in every cell: zeros(n) + v (the repository's spelling); the name `zeros` is numpy's either way
                 count[0] += 1
@@ -994,7 +1006,7 @@ def numpy_spellings(tree):
                 count[0] += 1
                 return ast.copy_location(ast.Name(id=n.attr, ctx=ast.Load()), n)
             return n
-    if not aliases and not (set(from_numpy.values()) & (_METHOD_FORM | {"transpose", "newaxis", "square", "matmul", "full", "reciprocal"})):
+    if not aliases and not (set(from_numpy.values()) & (_METHOD_FORM | {"transpose", "newaxis", "square", "matmul", "full"})):
         return 0
     V().visit(tree)
     if added:
